@@ -66,6 +66,12 @@ CLAIMED = {
         text="Lean theorems for every name, every number of fields and every field behaviour: the crate's tuple builder writes what core's writes in every non-alternate configuration (tuple_eq_std_flat) and in pretty mode whenever the fields do not depend on the non-alternate options (tuple_eq_std_pretty); padding is chunk-insensitive; the derive omits skipped fields and closes with finish_non_exhaustive iff one is skipped. The full statement is false on this tree (kernel-checked counterexample = the known finding). Both models are compared with the real src/fmt.rs and the real core builders on 6k scripted runs; the Debug expander model with the working tree; 70 generated type pairs (raw identifiers, generics, enums, skip) are printed under 14 specs + nesting against std's derive",
         note="Lean kernel; partial: the pretty x non-default-options case is a known finding; writer errors (fmt::Error) are not modelled",
         ref="DESIGN.md §4 C06"),
+    "C10": dict(
+        level="proof",
+        technique="Lean 4 theorems over an IR of the generated operator bodies with arbitrary (non-commutative) field operators + token-level body correspondence for all 24 derives + tagging operand type with the real macro",
+        text="Lean theorems for any number of fields and any operators: binary derives give zipWith op lhs rhs (operand order preserved), scalar Mul-like gives field op rhs, Not/Neg map every field, *Assign equals the binary result, Sum/Product is in every field the fold of that field from the empty sum, enum arms: same variant -> Ok field-wise, equal unit variants -> unit error, different variants -> mismatch (first-arm-wins match, proved by induction over the arm list). The model's method bodies are compared token-for-token with the working-tree expansions of all 24 derives on 4800 generated items; 55 types over a tagging operand type are run with the real macro",
+        note="Lean kernel; model tied by differential run; method-call / UFCS / match evaluation is the modelled fragment of Rust; impl headers and where-clauses belong to C01",
+        ref="DESIGN.md §4 C10"),
 }
 
 NOT_APPLICABLE = {}
